@@ -387,6 +387,95 @@ TRIGGERS = {
             'a self-referential deque / OrderedDict / list subclass / '
             'user-defined MutableSequence: RecursionError instead of the '
             'recursion warning'),
+ 'S6-C01': ('datacodepep586.py: the per-member Literal test emitted as "is" '
+            'instead of "=="',
+            'a Literal[...] hint and a conforming value that is equal to but '
+            'not the same object as the member (ints beyond the small-int '
+            'cache, bytes, strings built at run time): rejected, then the '
+            'explanation (still ==) finds nothing'),
+ 'S6-C02': ('redpep646tuple.py: "list is not None" became "list" in the '
+            'PEP 646 tuple reducer',
+            'tuple[*tuple[A, B], C, ...] - an unpacked fixed tuple as FIRST '
+            'of several children: reduced to bare tuple, any tuple accepted'),
+ 'S6-C03': ('doormeta.py: TypeHint wrappers cached under repr(hint)',
+            'two distinct hints printing alike (classes from a factory, '
+            'same-named TypeVars / NewTypes) wrapped one after the other: '
+            'TypeHint(B) is the wrapper of A, the object-oriented entry '
+            'points disagree with the functional ones'),
+ 'S6-C04': ('datacodefuncwrap.py: positional-only parameters fall back to '
+            'kwargs.get(name)',
+            'def f(a: int = 0, /, **kw: str) called f(a=\'s\'): the keyword '
+            'belongs to **kw, the wrapper checks it against a\'s hint'),
+ 'S6-C05': ('clawastimport.py: LAST_BEFORE_DECOR_HOSTILE inserts at the index '
+            'of the last decorator instead of the current one',
+            'module importing a beforelisted package and a function with >= '
+            '2 ordinary decorators: @beartype lands between them'),
+ 'S6-C06': ('_clawimpfileloader.py: module_name_to_beartype_conf filled with '
+            'setdefault()',
+            'a module imported under configuration A, registrations changed, '
+            'module imported again: compiled and checked under A still (the '
+            'registry answers are right, only real imports show it)'),
+ 'S6-C07': ('hinttreecode.py: "&=" on the cacheable flag became "="',
+            'dict[\'Key\', int]-like hint text used from a second scope '
+            '(second call of a closure factory) where Key is another class'),
+ 'S6-C08': ('utilfunctest.py: is_func_coro() unwraps __wrapped__',
+            'async def wraps-adapter around a plain function annotated '
+            '-> Coroutine[None, None, int]: awaited value checked against '
+            'Coroutine[...]'),
+ 'S6-C09': ('errpep484585container.py: with random_int None the cause finder '
+            'walks every item',
+            'rejecting path, no random integer (sets / is_random=False), a '
+            'conforming container next to the culprit: n+1 reads'),
+ 'S6-C10': ('datacodepep484585.py: the mapping emptiness guard "not len(x)" '
+            'became "not x"',
+            'a mapping hint and a subject whose class defines __bool__: the '
+            'check runs it (raising __bool__ escapes, falsy non-empty '
+            'mappings are not looked into)'),
+ 'S6-C11': ('fwdrefmeta.py: the resolved referent type is cached before it is '
+            'validated',
+            'type[\'Name\'] where Name resolves at call time to a hint that '
+            'is no class, called twice with a class: the second call leaks '
+            'TypeError from issubclass()'),
+ 'S6-C12': ('_valeisoper.py: IsEqual.is_valid gains an identity fast path',
+            'the checked object is the operand itself and is not equal to '
+            'itself: is_valid() True, generated code False'),
+ 'S6-C13': ('utilfuncmake.py: update_wrapper() inlined with __wrapped__ set '
+            'before the __dict__ update',
+            'the decorated callable is itself a wraps closure: __wrapped__ '
+            'names the innermost function'),
+ 'S6-C14': ('fwdrefmeta.py: the eviction of a failed referent guarded by '
+            'membership in the wrong table',
+            'callable decorated before the name exists, first called while '
+            'the name is bound to a non-hint placeholder, then after it was '
+            'bound to the class: keeps failing'),
+ 'S6-C15': ('codescope.py: the two pooled scratch lists released before the '
+            'tuple is built from them',
+            'a union / type tuple with an unresolved forward reference and a '
+            'second thread acquiring a list in between: the other thread\'s '
+            'classes end up in the isinstance tuple'),
+ 'S6-C16': ('clawastmain.py: no decorator injected under strategy O0 (cache '
+            'marker unaware of the strategy)',
+            'run 1 hooks with strategy O0, run 2 with a checking '
+            'configuration of the same placement options: run 2 reuses '
+            'decorator-less bytecode'),
+ 'S6-C17': ('_confget.py: is_color normalisation moved behind callable_cached '
+            '(keyed by ==/hash)',
+            'BeartypeConf(is_color=True) then BeartypeConf(is_color=1) (or '
+            'the other way round): the look-alike gets the first one\'s '
+            'outcome'),
+ 'S6-C18': ('hintsane.py: the recursion guard left out of HintSane hash / eq',
+            'override {A: B} with B containing A, and the same configuration '
+            'meeting both A and a hand-written B: the first cached form '
+            'decides the later verdict'),
+ 'S6-C19': ('doorpep484newtype.py: the synthesised origin class cached by '
+            'repr(NewType)',
+            'two NewTypes of the same name over different classes, wrapped '
+            'one after the other: is_subhint(StrId, int) True'),
+ 'S6-C20': ('redpep484612646typearg.py: operands of the TypeVar lookup-table '
+            'merge swapped (outer binding wins)',
+            'user generics over one TypeVar nested with different bindings '
+            '(Table[str, Bag[int]]): the inner list[T] is checked with the '
+            'outer T; infer_hint round trip fails'),
  'S3-C11': ('pep593.py is_hint_pep593_beartype: the isinstance() test on the '
             'first metadatum moved out of the try/except',
             'Annotated[...] whose first metadatum raises when its __class__ is '
@@ -734,6 +823,53 @@ HISTORY = {
            'were kept out of the pools because of Any); Annotated[object, '
            'validator] is admitted (object is not Any; Annotated[Any, ...] '
            'stays out: the property excludes Any) - caught',
+ 'S6-C01': 'MISSED at first contact (Literal members were generated as '
+           'the very objects of the hint, or interned ones); conforming '
+           'values are now equal copies half of the time and the literal '
+           'pool has a large int, a long str and multi-byte bytes - caught',
+ 'S6-C02': 'MISSED at first contact (no PEP 646 spelling in the grammar); '
+           'fixed tuples are spelled with an unpacked fixed run (first, '
+           'middle or last) a fifth of the time - caught',
+ 'S6-C03': 'MISSED at first contact (every generated hint printed '
+           'differently); directed twins (factory classes, same-named '
+           'TypeVars / NewTypes, containers of them) wrapped one after the '
+           'other, all entry points compared - caught',
+ 'S6-C06': 'MISSED at first contact (the check observed registry answers '
+           'only); histories now (re-)import real modules living under the '
+           'registered names and compare the configuration each module runs '
+           'under with the model - caught',
+ 'S6-C10': 'MISSED at first contact: "bool" was on the read-only allowlist '
+           'although the property does not list truth-testing. The spies '
+           'now log who asks (__bool__ from a user predicate = "bool", from '
+           'checking code = "truth-test", not allowed). On the unchanged '
+           'tree this showed tuple[()] being checked by truthiness while '
+           'the violation path uses the length - repaired (fe3fa70) - '
+           'caught',
+ 'S6-C11': 'MISSED at first contact (every decorated callable was called '
+           'once, with one subject); calls are repeated, also with a class, '
+           'and names may be bound after decoration to hints that are no '
+           'classes - caught',
+ 'S6-C14': 'MISSED at first contact (names went from undefined to defined); '
+           'placeholder-then-class bindings, also under long-lived '
+           'callables - caught',
+ 'S6-C15': 'MISSED at first contact (no hint with an unresolved reference '
+           'in a union was decorated concurrently); added - caught on every '
+           'run by the ownership sanitizer (list read after release)',
+ 'S6-C16': 'MISSED at first contact (strategy O0 was one named configuration '
+           'in 47; caught once in a later probe); O0 is a value of the '
+           'non-shaping dimension of the product and a third of the steps '
+           'go to another configuration of the same AST shape - caught with '
+           '60+ hits (stale behaviour and "marked but not transformed")',
+ 'S6-C18': 'MISSED at first contact (the by-hand hint was only checked under '
+           'the configuration without overrides); the by-hand hint is now '
+           'also given, as a user hint, to the overriding configuration '
+           '(expected: rewritten once more), then the original again - '
+           'caught',
+ 'S6-C20': 'MISSED at first contact (no nested user generics in the object '
+           'generator); Bag / Table instances nested in each other. On the '
+           'unchanged tree this found a genuine defect of the same family '
+           '(bare inner generic checked with the outer binding, open '
+           'finding) - caught under a key of its own',
  'S-C10': 'MISSED by the first C10 (one-shot spies had no __len__); added '
           'PySizedIterator/PySizedIterable spies to C09 and C10 - now caught',
 }
